@@ -6,6 +6,7 @@ from .prune import is_call
 
 LEVEL = 'proof'
 RULES = {
+    'C11.R7': 'the keep-one-branch fallback of the pruned composition (reached only when the LP wrongly let an empty node through) pairs each new node with the operand node it was copied from (shared with C02.R1)',
     'C11.R6': 'an "optimal" point outside the polytope is recognised by Polytope::contains: every row within the documented 1e-8 tolerance, on the raw (not normalised) distances (shared with C14.R1)',
     'C11.R5': 'the links, leaf flags and node set that stay well-formed when the LP misbehaves are what the arena mutators maintain as their effect contracts say (shared with C12.R2)',
     'C11.R4': helpers.RULE_TEXT,
@@ -15,7 +16,7 @@ RULES = {
               'neither does any arm that matches on a cached node state which only a fault arm produces (Feasible after an Unbounded answer)',
     'C11.R3': 'less pruning only: no removal and no cached witness can be produced from a fault arm (removal-site and witness-guard rules)',
 }
-FLOORS = {'C11.R6': 3, 'C11.R5': 15, 'C11.R4': 6, 'C11.R1': 9, 'C11.R2': 6, 'C11.R3': 13}
+FLOORS = {'C11.R7': 1, 'C11.R6': 3, 'C11.R5': 15, 'C11.R4': 6, 'C11.R1': 9, 'C11.R2': 6, 'C11.R3': 13}
 EXPLANATION = ('The fault arms are unreachable with minilp, which is why no test executes them; they are examined directly: '
                'for every tree and every subset/position of faulty LP answers no fault arm can produce a removal, an Infeasible verdict, '
                'an unchecked witness or a panic.')
@@ -164,6 +165,7 @@ def run(ctx):
     helpers.run_for(ctx)
     helpers.share_from(ctx, 'c14', 'C11.R6', ['AffFuncBase::contains', 'AffFuncBase::distance'])
     helpers.share_arena_contracts(ctx, 'C11.R5')
+    helpers.share_from(ctx, 'c02', 'C11.R7', ['AffTree::generic_composition_inplace#pairing'])
     prune.check_infeasible_provenance(ctx, 'C11.R1')
     prune.check_edge_feasible_table(ctx, 'C11.R1')
     r1_callers(ctx)
